@@ -26,6 +26,9 @@ structure Var where
   ref : RefKind
   /-- `IsExpEmpty`: declared without a value (or `= nil`); a later plain assignment re-points ReferExp -/
   expEmpty : Bool := false
+  /-- `len(SubMaps) > 0`: a member with a constant string key was assigned through this variable
+      (`v.f = …`, `v["k"] = …`, `v.f.g = …`); such a variable is no longer re-pointed -/
+  hasSubs : Bool := false
   isParam : Bool := false
 deriving Repr, DecidableEq, Inhabited
 
@@ -103,7 +106,28 @@ def St.repoint (s : St) (n : Bytes) (nl : Loc) (e : Exp) : St :=
     | [] => none
     | v :: r =>
       if v.name == n && isCorrectPosition v nl then
-        some ((if v.expEmpty then { v with ref := refKindOf e, expEmpty := isNilExp e } else v) :: r)
+        some ((if v.expEmpty && !v.hasSubs then { v with ref := refKindOf e, expEmpty := isNilExp e } else v) :: r)
+      else (updScope r).map (v :: ·)
+  let rec go : St → St
+    | [] => []
+    | a :: r =>
+      match updScope a.vars.reverse with
+      | some vs => { a with vars := vs.reverse } :: r
+      | none => a :: go r
+  go s
+
+/-- the root name of an access chain all of whose keys are string constants (`v.f`, `v["k"]`, `v.f.g`) -/
+def strChainRoot : Exp → Option (Bytes × Loc)
+  | .index (.name n nl) (.str _ _) _ => some (n, nl)
+  | .index p (.str _ _) _ => strChainRoot p
+  | _ => none
+
+/-- an assignment through `v.f…`: the variable the chain starts at (traversal-time `FindLocVar`) gets a member -/
+def St.markSubs (s : St) (n : Bytes) (nl : Loc) : St :=
+  let rec updScope : List Var → Option (List Var)
+    | [] => none
+    | v :: r =>
+      if v.name == n && isCorrectPosition v nl then some ({ v with hasSubs := true } :: r)
       else (updScope r).map (v :: ·)
   let rec go : St → St
     | [] => []
@@ -128,6 +152,11 @@ def skipKey : Exp → Bool
 def nameOf : Exp → Option (Bytes × Loc)
   | .name n nl => some (n, nl)
   | _ => none
+
+def markTarget (s : St) (v : Exp) : St :=
+  match strChainRoot v with
+  | some (n, nl) => s.markSubs n nl
+  | none => s
 
 def blockLoc : Block → Loc
   | .mk _ _ bl => bl
@@ -183,12 +212,12 @@ termination_by cs bs => sizeOf cs + sizeOf bs
 /-- assignment: for each target i, expression i first, then the target (re-pointing for bare names) -/
 def cgAssign (s : St) : List Exp → List Exp → St
   | [], _ => s
-  | v :: vs, [] => cgAssign (if (nameOf v).isSome then s else cgExp s v) vs []
+  | v :: vs, [] => cgAssign (if (nameOf v).isSome then s else markTarget (cgExp s v) v) vs []
   | v :: vs, e :: es =>
     let s1 := cgExp s e
     cgAssign (match nameOf v with
       | some (n, nl) => s1.repoint n nl e
-      | none => cgExp s1 v) vs es
+      | none => markTarget (cgExp s1 v) v) vs es
 termination_by vs es => sizeOf vs + sizeOf es
 /-- local declaration: expression i, then name i; surplus names refer to a trailing call or are empty -/
 def cgLocal (s : St) (lastCall : Option Loc) : List (Bytes × Loc × Nat) → List Exp → St
